@@ -30,7 +30,7 @@ type Node struct {
 
 func (n Node) fields() []string {
 	mt := strconv.FormatInt(n.Mtime, 10)
-	if n.MtimeX || n.Kind == 's' {
+	if n.MtimeX {
 		mt = "*"
 	}
 	data, target := "-", "-"
